@@ -23,7 +23,8 @@ LEVEL_TEXT = ("Random histories (5-40 calls) of sample / marginal / conditional 
               "boundary, returned arrays must not share memory with model or caller arrays and are overwritten to show nothing writes "
               "through, and at the end the model must be indistinguishable (population law, seeded sample, attributes) from a freshly "
               "built twin.  Every public graph / generator utility is called on caller-owned matrices, sets, lists and dicts under the "
-              "same monitors; constructors are tested for copy-on-construct by mutating the caller's objects afterwards.")
+              "same monitors; constructors are tested for copy-on-construct by mutating the caller's objects afterwards (arrays, lists and, for "
+              "NormalDistribution, 0-d / 1-d / 1x1 arrays of lower dimension than the stored form, with a shares-memory assertion).")
 LEVEL_NOTE = "Callables stored in an ANM are shared by reference (they are not arrays, sets or dicts); the documented output buffer of cartesian is exempt."
 RULE = ("cases: (model kind, model parameters, call history) and (utility workload on a graph).  distinct = distinct canonical case; "
         "non-trivial = a history with at least one intervention or conditioning call, or a utility workload on a graph with >= 2 edges"
@@ -201,6 +202,27 @@ def _judge_model(kind, case, rec, family):
                     model.sample(3, **kw)
             except Exception as e:
                 rec.count("history:exception-" + type(e).__name__)
+        # a one-variable model whose W is given with fewer than two dimensions (np.atleast_2d returns a view of such arrays)
+        for wform in ("0d", "1d", "2d"):
+            w1 = {"0d": np.array(0.0), "1d": np.array([0.0]), "2d": np.array([[0.0]])}[wform]
+            mu1, va1 = np.array([1.5]), np.array([2.0])
+            try:
+                one = sempler.LGANM(w1, mu1, va1)
+            except Exception as e:
+                rec.count("copy-on-construct:low-dim-exception-" + type(e).__name__)
+                continue
+            rec.count("copy-on-construct:LGANM-low-dim")
+            if np.shares_memory(one.W, w1) or np.shares_memory(one.means, mu1) or np.shares_memory(one.variances, va1):
+                rec.violation("C14:lganm-aliases-constructor-argument", family, case, "LGANM(W as %s array of one variable) stores the caller's own buffer" % wform)
+                break
+            w1[...] = 0.5
+            mu1[...] = -4.0
+            va1[...] = 9.0
+            d_one = one.sample(population=True)
+            if not (np.array_equal(np.asarray(one.W), [[0.0]]) and np.array_equal(d_one.mean, [1.5]) and np.array_equal(d_one.covariance, [[2.0]])):
+                rec.violation("C14:lganm-low-dim-argument-not-copied", family, case,
+                              "LGANM(W as %s array): overwriting the caller's arrays after construction changed the model" % wform)
+                break
         # the caller later changes his own arrays: the model must not notice (copy-on-construct)
         rec.count("copy-on-construct:LGANM")
         W[...] = 7
